@@ -300,9 +300,9 @@ def coq_case(name, p, G, omega, obs, big, which='all'):
         f"tallyC O {tol_lit(O, 1e-9 * G)} {carr_lit(np.array(q.total_propagator).reshape(-1))}%Z "
         f"(flat2 (total_propagator O {d} (propagators O {d} (tile ev {G}) (tile Vs {G}) (tile dts {G}))))",
         # tiled Hamiltonian coefficients, dt, tau, phases
-        f"tallyR O {tol_lit(O, 1e-300)} {rvec_lit(q.dt)}%Z (tile dts {G})",
-        f"tallyR O {tol_lit(O, 1e-300)} {rvec_lit(np.array(q.c_coeffs).reshape(-1))}%Z (concat (map (fun row => tile row {G}) cc))",
-        f"tallyR O {tol_lit(O, 1e-300)} {rvec_lit(np.array(q.n_coeffs).reshape(-1))}%Z (concat (map (fun row => tile row {G}) nc))",
+        f"tallyR O {tol_lit(O, 1e-13 * max(np.abs(q.dt).max(), 1e-30))} {rvec_lit(q.dt)}%Z (tile dts {G})",
+        f"tallyR O {tol_lit(O, 1e-13 * max(np.abs(q.c_coeffs).max(), 1e-30))} {rvec_lit(np.array(q.c_coeffs).reshape(-1))}%Z (concat (map (fun row => tile row {G}) cc))",
+        f"tallyR O {tol_lit(O, 1e-13 * max(np.abs(q.n_coeffs).max(), 1e-30))} {rvec_lit(np.array(q.n_coeffs).reshape(-1))}%Z (concat (map (fun row => tile row {G}) nc))",
         f"tallyR O {tol_lit(O, 1e-12 * max(q.tau, 1e-300))} {rvec_lit([q.tau])}%Z [periodic_tau_assigned O {G} None dts]",
         f"tallyR O {tol_lit(O, 1e-12 * max(q.tau, 1e-300))} {rvec_lit([q.tau])}%Z [tau_get O None (tile dts {G})]",
         f"tallyC O {tol_lit(O, 1e-9 * max(1.0, np.abs(omega).max() * q.tau))} {cvec_lit(q.get_total_phases(omega))}%Z (map (fun z => cpow O z {G}) ph)",
